@@ -184,6 +184,69 @@ pub unsafe extern "C" fn clock_gettime(clk: clockid_t, ts: *mut timespec) -> c_i
     0
 }
 
+static ENVVARS_SEED: AtomicU64 = AtomicU64::new(0);
+static REAL_GETENV: AtomicUsize = AtomicUsize::new(0);
+static GETENV_CALLS: AtomicU64 = AtomicU64::new(0);
+static GETENV_CACHE: std::sync::Mutex<Vec<(u64, Vec<u8>, Option<std::ffi::CString>)>> = std::sync::Mutex::new(Vec::new());
+
+/// environment-variable seam: 0 = real environment
+pub fn set_envvars_seed(seed: u64) {
+    ENVVARS_SEED.store(seed, SeqCst);
+    GETENV_CALLS.store(0, SeqCst);
+}
+pub fn getenv_calls() -> u64 {
+    GETENV_CALLS.load(SeqCst)
+}
+
+/// variables the runtime itself, the allocator, the loader or the harness rely on
+fn getenv_passthrough(name: &[u8]) -> bool {
+    const EXACT: &[&[u8]] = &[b"TMPDIR", b"PATH", b"PWD", b"VERIF_ROOT", b"VERIF_SEED", b"VERIF_TIER", b"VERIF_ONLY", b"VERIF_WORKERS", b"VERIF_VERBOSE", b"VERIF_REPLAY_DIR", b"VERIF_EVIDENCE_DIR", b"LINFA_REPO", b"TERM"];
+    const PREFIX: &[&[u8]] = &[b"RUST_", b"MALLOC_", b"LD_", b"GLIBC_", b"CARGO"];
+    EXACT.contains(&name) || PREFIX.iter().any(|p| name.starts_with(p))
+}
+
+type GetenvFn = unsafe extern "C" fn(*const libc::c_char) -> *mut libc::c_char;
+
+/// Interposed libc `getenv` (what `std::env::var` ends in).  For simulated threads under a
+/// non-zero environment seed EVERY variable the code asks for — whatever its name — gets a
+/// seeded answer: unset, or a small number (what thread counts, seeds, sizes and flags parse).
+#[no_mangle]
+pub unsafe extern "C" fn getenv(name: *const libc::c_char) -> *mut libc::c_char {
+    let real: GetenvFn = {
+        let mut p = REAL_GETENV.load(SeqCst);
+        if p == 0 {
+            p = libc::dlsym(libc::RTLD_NEXT, b"getenv\0".as_ptr() as *const _) as usize;
+            if p == 0 {
+                libc::abort();
+            }
+            REAL_GETENV.store(p, SeqCst);
+        }
+        std::mem::transmute::<usize, GetenvFn>(p)
+    };
+    let seed = ENVVARS_SEED.load(SeqCst);
+    if seed == 0 || name.is_null() || TID.with(|t| t.get()) == 0 {
+        return real(name);
+    }
+    let bytes = std::ffi::CStr::from_ptr(name).to_bytes();
+    if getenv_passthrough(bytes) {
+        return real(name);
+    }
+    GETENV_CALLS.fetch_add(1, SeqCst);
+    let h = mix3(seed, crate::fp::fnv(bytes), 0xE27);
+    let mut cache = match GETENV_CACHE.lock() {
+        Ok(g) => g,
+        Err(p) => p.into_inner(),
+    };
+    if let Some(e) = cache.iter().find(|e| e.0 == seed && e.1 == bytes) {
+        return e.2.as_ref().map(|c| c.as_ptr() as *mut libc::c_char).unwrap_or(std::ptr::null_mut());
+    }
+    let val = if h % 4 == 0 { None } else { std::ffi::CString::new(format!("{}", 1 + (h >> 8) % 97)).ok() };
+    cache.push((seed, bytes.to_vec(), val));
+    let e = cache.last().unwrap();
+    // the CString's heap buffer does not move when the Vec reallocates
+    e.2.as_ref().map(|c| c.as_ptr() as *mut libc::c_char).unwrap_or(std::ptr::null_mut())
+}
+
 /// real wall clock for evidence (`wall_s`), never the simulated one
 pub fn real_now_s() -> f64 {
     unsafe {
